@@ -29,6 +29,7 @@ from ..monitor import call_real, describe_exc, reach
 
 ID = 'C16'
 LEVEL = 'exploration'
+DEBUG_TOGGLE = True  # runner flips the library debug flag every 97 monitored executions
 TECHNIQUE = 'runtime monitoring: pairwise injectivity check over the complete object set of each space, single-perturbation neighbours of whole states/observations, positional-independence and item-vs-grid consistency checks, agent-marker check, and per-channel image sets (disjointness, compactness) computed from the real convert()'
 LEVEL_TEXT = ('For each space and each representation the per-object encoding is computed for every (type, status, colour) object of '
               'the space (exhaustive per space) and compared pairwise: equal encodings iff equal objects; the grid entry at (y,x) '
